@@ -2,6 +2,7 @@
   C04 — identities that match no recipient never obtain plaintext.
 -/
 import Proofs.FileDecrypt
+import Props.C01
 import Proofs.ScryptEquiv
 import Proofs.ScryptNul
 import AgeModel.Exec.FileExec
@@ -220,6 +221,11 @@ theorem ssh_other_tag_incorrect (P : Prims) (w k : Bytes) (s : Stanza) (tag : By
 
 /-- non-vacuity: a header with one grease stanza and an X25519 identity -/
 example : ∀ s ∈ [({ type := [103], args := [], body := [] } : Stanza)], s.type ≠ tX25519 := by decide
+
+/-- non-vacuity of `reader_requires_key`: a concrete run in which a reader IS obtained (toy primitives) -/
+example : ∃ ids file k payload c, decryptInit Prims.toy ids file = (.ok (k, payload), c) :=
+  let ⟨f, k, p, _, _, h⟩ := Props.C01.nonvacuous_roundtrip
+  ⟨_, f, k, p, 1, h⟩
 
 end Props.C04
 end AgeModel
